@@ -176,6 +176,16 @@ def run_app(sc, choices=None, world_hook=None):
             from .simrel import SimRel
             rel = SimRel(w)
             rf["dispatcher"] = rel
+        if closer is not None and closer.get("kind") == "rel_timer":
+            # the application closes from a timer of the external dispatcher, i.e. on the dispatcher's own thread
+            if rel is None:
+                raise InvalidScenario("rel_timer closer needs the external dispatcher")
+
+            def _rel_close():
+                w.k.ev("closer_fires")
+                app.close()
+
+            rel.timeout(int(closer["t"]) / S, _rel_close)
         if runopt.get("set_reconnect") is not None:
             ws.setReconnect(runopt["set_reconnect"] / S)
         closer_thread = None
